@@ -179,6 +179,7 @@ void COEmcyInit(CO_EMCY *emcy, CO_NODE *node, CO_EMCY_TBL *root)
     CO_OBJ   *obj;
     uint16_t  n;
     uint32_t  size;
+    uint8_t   reg;
 
     ASSERT_PTR(emcy);
     ASSERT_PTR(node);
@@ -204,6 +205,9 @@ void COEmcyInit(CO_EMCY *emcy, CO_NODE *node, CO_EMCY_TBL *root)
             node->Error = CO_ERR_CFG_1001_0;
             return;
         }
+        /* no error is active: the error register restarts empty */
+        reg = 0;
+        (void)COObjWrValue(obj, node, &reg, 1u);
     }
 
     /* emergency cob-id is mandatory when an emergency table exists */
